@@ -18,6 +18,7 @@ def plan(tier, seed):
 
     return [
         {'name': 'x32', 'target': TARGET, 'x64': False, 'cases': U.cases(tier, ('f32',), modulus=8)},   # pairs of symmetric-tagged specimens are always included
+        {'name': 'x64_f32', 'target': TARGET, 'x64': True, 'chunk': 3, 'cases': [c for c in U.cases(tier, ('f32',)) if tier == 'thorough' or 'b' not in c]},
         {'name': 'x64', 'target': TARGET, 'x64': True, 'chunk': 3,
          'cases': U.cases(tier, ('f64',)) if tier == 'thorough' else [c for c in U.cases(tier, ('f64',)) if 'b' not in c]},
     ]
@@ -32,6 +33,15 @@ def oracle(desc, op, exact):
         p2, y2 = _oracle(desc, red, exact)
         probs += [(k + '-after-reduce', d) for k, d in p2]
         yes = yes or y2
+        # the factors reduce() creates (merged scalars, merged rotations, diagonals of multiplicities) carry tags too
+        from furax._base.blocks import AbstractBlockOperator
+        from furax._base.core import AdditionOperator, CompositionOperator
+
+        kids = list(red.operands) if isinstance(red, CompositionOperator) else red.operand_leaves if isinstance(red, AdditionOperator) else red.block_leaves if isinstance(red, AbstractBlockOperator) else []
+        for kid in kids[:6]:
+            p3, y3 = _oracle(desc, kid, exact)
+            probs += [(k + '-factor-after-reduce', d) for k, d in p3]
+            yes = yes or y3
     return probs, yes
 
 
